@@ -246,6 +246,7 @@ func VerifC20Admission() {
 				SignalID:          s.id, Price: vs.U64("old_price"), Timestamp: ts, BlockHeight: 1,
 			}
 			prevList = append(prevList, s.old)
+			c20HashWord(val, ts) // the digest behind this signal's assigned time goes on the tape
 		}
 		if s.present {
 			if i == 0 || vs.Param("second_full") == 1 {
